@@ -317,3 +317,46 @@ class branch_exit:
         return {"P_first_branch_establishes_the_exit_row": implies(isNone(e0), notNone(self._exit_op._cfg_outputs) and eq(the(self._exit_op._cfg_outputs), succ_row(self, w))
                                                                    and notNone(self.parent_op._outputs) and eq(the(self.parent_op._outputs), succ_row(self, w))),
                 "P_established_exit_row_is_kept": implies(notNone(e0), eq(self._exit_op._cfg_outputs, e0))}
+
+
+# ---- Case.set_outputs hands the row of its wires' types to the conditional ---------------------------------
+@spec
+def wire_row(b, ws):
+    """ghost: the row of types of a list of wires (DfBase._wire_types)"""
+    return ghost("row_of_wires", "Seq[Type]", b.hugr, ws)
+
+
+@contract("hugr.build.dfg.DfBase._wire_types", props=[])
+class wire_types_named:
+    """TRUSTED: names its result; may refuse a port without a dataflow type."""
+    trusted = True
+    exact_self = False
+    types = {"args": "Seq[Union[Node, OutPort]]"}
+    returns = "Seq[Type]"
+    may_raise = ["ValueError"]
+
+    def modifies(self, args):
+        return []
+
+    def raises(self, args):
+        return {}
+
+    def ensures(self, args, result):
+        return {"A_named": eq(result, wire_row(self, args))}
+
+
+@contract("hugr.build.cond_loop.Case.set_outputs", props=["C13"])
+class case_set_outputs:
+    types = {"outputs": "Seq[Union[Node, OutPort]]"}
+    may_raise = ["ValueError", "hugr.exceptions.NoSiblingAncestor"]
+
+    def modifies(self, outputs):
+        return [self.hugr._nodes, self.hugr._links.fwd, self.hugr._links.bck, "hugr.ops.Conditional._outputs", "hugr.build.base.ParentBuilder.parent_node"]
+
+    def raises(self, outputs):
+        # the conditional this case belongs to has an established row (an empty one counts) and this case's row differs
+        c = self._parent_cond
+        return {hugr.build.cond_loop.ConditionalError: notNone(c) and notNone(the(c).parent_op._outputs) and wire_row(self, outputs) != the(the(c).parent_op._outputs)}
+
+    def ensures(self, outputs, result):
+        return {}
